@@ -94,11 +94,21 @@ static void cmd_api(const J& c)
         else if (op == "null")
         {
             auto what = o.str("what");
+            // a handle that is no instance: NULL, or readable memory without the instance tag (hk = its first bytes)
+            auto hk = o.str("hk", "null");
+            alignas(16) static char fake[256];
+            std::memset(fake, 0, sizeof(fake));
+            void* bad = nullptr;
+            if (hk != "null")
+            {
+                bad = fake;
+                if (hk != "zeros") { for (size_t q = 0; q < hk.size() && q < 4; q++) { fake[q] = hk[q] == '0' ? '\0' : hk[q]; } }
+            }
             g_cb.expect_user = nullptr;
-            if (what == "call") { ret = sqfvm_call(nullptr, g_cb.expect_call, 's', "gX = 1;", 7); }
-            else if (what == "callempty") { ret = sqfvm_call(nullptr, g_cb.expect_call, 's', "", 0); }
-            else if (what == "config") { ret = sqfvm_load_config(nullptr, "class A {};", 11); }
-            else { ret = sqfvm_status(nullptr); }
+            if (what == "call") { ret = sqfvm_call(bad, g_cb.expect_call, 's', "gX = 1;", 7); }
+            else if (what == "callempty") { ret = sqfvm_call(bad, g_cb.expect_call, 's', "", 0); }
+            else if (what == "config") { ret = sqfvm_load_config(bad, "class A {};", 11); }
+            else { ret = sqfvm_status(bad); }
         }
         else if (op == "config")
         {
